@@ -449,7 +449,7 @@ def drive_model_behaviours(ctx: Ctx, loop: steploop.StepLoop) -> None:
     plans = [("mix3", 15, False, 2), ("pair", 12, True, 2), ("close", 15, False, 2), ("ovr", 15, False, 2), ("ovr", 11, True, 1)]
     for prog, wbits, notakeover, mc in plans:
         cfgp = write_cfg(prog, True, not notakeover, mc, False, invs=["LockSafety"])
-        behs, _res = simulate_behaviours("WsSendMC", cfgp, num=ctx.pick(60, 600), depth=ctx.pick(40, 60), seed=ctx.seed, timeout=300)
+        behs, _res = simulate_behaviours("WsSendMC", cfgp, num=ctx.pick(120, 1500), depth=ctx.pick(40, 60), seed=ctx.seed, timeout=300)
         for bi, beh in enumerate(behs):
             msgs = []
             tiny: set = set()
@@ -536,7 +536,7 @@ def random_recipe(ctx: Ctx, rng: Any, k: int, big: bool) -> dict:
 def drive_random(ctx: Ctx, loop: steploop.StepLoop) -> None:
     b = Batcher(ctx, "random")
     rng = ctx.rng
-    n = ctx.pick(450, 6000)
+    n = ctx.pick(1000, 20000)
     for k in range(n):
         big = (not ctx.quick) and k % 60 == 0
         b.add(run_recipe(ctx, loop, random_recipe(ctx, rng, k, big), "random"))
